@@ -20,6 +20,18 @@ Theorem c11_shutdown_branches :
   shutdown_upgrade_only_stops_accept = true /\ shutdown_otherwise_closes_then_drains = true.
 Proof. exact (conj eq_refl eq_refl). Qed.
 
+(* the read buffer of a connection rebuilt from a transfer leaves room for the next read (connection.go NewServerConnection);
+   with this flag false a hand-over with exactly 64, 128, 256, ... buffered bytes is closed by the new process *)
+Theorem c11_transfer_buffer_has_room : transfer_buffer_has_room = true.
+Proof. exact (eq_refl true). Qed.
+Theorem c11_handed_over_conn_survives : forall buffered, handed_over_conn_survives transfer_buffer_has_room buffered = true.
+Proof. exact survives_with_room. Qed.
+(* the code before the fix: exactly the pool sizes are fatal *)
+Example c11_full_buffer_was_fatal :
+  handed_over_conn_survives false 64 = false /\ handed_over_conn_survives false 4096 = false /\
+  handed_over_conn_survives false 63 = true /\ handed_over_conn_survives false 65 = true.
+Proof. exact without_room_64_fatal. Qed.
+
 (* ---- listener ---- *)
 (* every state reachable from a fresh listener is well-formed (an accept loop runs only in state Running) *)
 Theorem c11_listener_wf : forall bind inherited ops, l_wf (l_run (l_init bind inherited) ops).
@@ -210,6 +222,11 @@ Theorem c11_handover_stream : forall (F : Type) (parse : bytes -> presult F), st
     stuck fin = false.
 Proof. intros F parse St. exact (handover_stream parse St). Qed.
 Print Assumptions c11_handover_stream.
+
+(* the framing of bolt requests (22-byte header carrying the three lengths) is prefix-stable, so the theorem applies to the
+   connections the harness hands over at every byte offset *)
+Theorem c11_bolt_request_framing_stable : stable bolt_req_parse.
+Proof. exact bolt_req_stable. Qed.
 
 (* non-vacuity: length-prefixed frames, handover in the middle of the first frame *)
 Example c11_handover_example :
